@@ -89,7 +89,7 @@ class CHECK(core.Check):
     GENERATED = True
     ENGINE = "imports"
     N_QUICK = 8
-    N_THOROUGH = 200
+    N_THOROUGH = 120
     N_SEARCH = 8
     RULE = ("a case is an ordered list of ioflo module names imported into ONE fresh interpreter. Exhaustive: every "
             "module alone (quick and thorough), every ordered pair of modules of the same package (thorough; of the pairs "
@@ -97,7 +97,7 @@ class CHECK(core.Check):
             "random orders of random subsets (2..all modules, with repeats and with the top-level package at a random "
             "position). Thorough tier also: the synthetic tree harness/corpus/C01-synth (42 scenario packages exercising "
             "the import protocol: cycles, partial modules, star/__all__, fromlist, namespace packages, try/except, "
-            "stdlib sub-module attributes ...; its modules alone, all ordered pairs and small permutations inside a "
+            "stdlib sub-module attributes ...; its modules alone, all ordered pairs and some permutations inside a "
             "scenario, random orders) run against the same model sources built over that tree; there only model == "
             "CPython is checked. Non-trivial = the order loads at least one module; distinct by the order")
     TRUSTED = ["translator harness/translate/imports.py: ast extraction of import-time events (module level, class bodies, "
@@ -113,7 +113,9 @@ class CHECK(core.Check):
                "that `import ioflo` itself loads (55 of the 150 module files) succeeds; C01_after_root_partial: every module "
                "outside D01c imports after `import ioflo`; C01_first_noncore_partial: after any sequence of such imports "
                "the first import of any other module outside D01c succeeds; C01_reimport: once imported, always "
-               "importable. NOT proved "
+               "importable; C01_finished_namespaces_stable (generic importAll_frame): no sequence of imports changes "
+               "the namespace of a module that had finished initialising, except for binding loaded sub-modules on their "
+               "package. NOT proved "
                "(only exercised by the ordered pairs and random orders of the correspondence): that the first import of a "
                "module outside that set succeeds after imports of OTHER modules outside that set (C01_any_order_full)",
                "outside the model: imports and name uses inside function bodies executed at import time, dynamic namespace "
@@ -223,7 +225,8 @@ class CHECK(core.Check):
             for a, b in itertools.permutations(ms, 2):
                 cases.append({"order": [a, b], "synth": 1})
             if 2 < len(ms) <= 5:
-                for p in itertools.permutations(ms):
+                perms = list(itertools.permutations(ms))
+                for p in (perms if len(perms) <= 6 else rng.sample(perms, 6)):
                     cases.append({"order": list(p), "synth": 1})
         for _ in range(30):
             c = self._random_case(rng, dom)
